@@ -110,7 +110,7 @@ struct Out {
     unmatched: u32,
 }
 
-fn run_world(ctx: &mut Ctx, kind: Kind, histories: Vec<Vec<Op>>, cut_points: Vec<usize>) {
+fn run_world(ctx: &mut Ctx, kind: Kind, histories: Vec<Vec<Op>>, cut_points: Vec<usize>, successor: bool) {
     let nsub = histories.len();
     let out = Rc::new(RefCell::new(Out { viol: vec![], done: false, probes_judged: 0, matched: 0, unmatched: 0 }));
     let o2 = out.clone();
@@ -227,6 +227,53 @@ fn run_world(ctx: &mut Ctx, kind: Kind, histories: Vec<Vec<Op>>, cut_points: Vec
                 o2.borrow_mut().viol.push(("partial_message_at_quiescence", format!("subscriber {i} accepts every write yet its stream ends inside a message")));
             }
         }
+        // a successor: subscriber 0 leaves, a fresh connection arrives. Subscriptions are counted per
+        // connection, so the newcomer starts with none (nothing is delivered to it) and then gets
+        // exactly what it subscribes to
+        if successor {
+            let gone = peers.remove(0);
+            gone.close();
+            rt::task::idle().await;
+            if kind == Kind::Xpub {
+                while let Some(Ok(_)) = rt::future::or_idle(sock.recv()).await {}
+            }
+            let mut p = RawPeer::connect(&ep).expect("connect");
+            p.hello(stypes[0], None).await.expect("hello");
+            p.conn.set_io(1, |io| io.wyield_pm = 0);
+            p.conn.set_cap(1, 1 << 40);
+            rt::task::idle().await;
+            for round in 0..2 {
+                let mut expect: Vec<Vec<Vec<u8>>> = Vec::new();
+                let before = p.inbound().messages().len();
+                for pf in PROBES.iter() {
+                    let msg = probe_msg(pf, probe_no, "s");
+                    probe_no += 1;
+                    if round == 1 && pf.starts_with(b"a") {
+                        expect.push(msg.clone());
+                    }
+                    if let Err(e) = sock.send(to_zmq(&msg)).await {
+                        o2.borrow_mut().viol.push(("publish_failed", e.to_string()));
+                        return world::park().await;
+                    }
+                }
+                rt::task::idle().await;
+                let got = p.inbound().messages();
+                if got[before..] != expect[..] {
+                    let clause = if round == 0 { "fresh_subscriber_inherits_subscriptions" } else { "fresh_subscriber_delivery_differs_from_model" };
+                    o2.borrow_mut().viol.push((clause, format!("{}: subscriber 0 (history {:?}) left and a fresh connection took its place; {} it received first frames {:?}, expected {:?}", kind.name(), h2[0], if round == 0 { "before subscribing to anything" } else { "after subscribing to 'a'" }, got[before..].iter().map(|m| String::from_utf8_lossy(&m[0]).to_string()).collect::<Vec<_>>(), expect.iter().map(|m| String::from_utf8_lossy(&m[0]).to_string()).collect::<Vec<_>>())));
+                    return world::park().await;
+                }
+                if round == 0 {
+                    let _ = p.send_msg(&Op::Sub(1).wire()).await;
+                    rt::task::idle().await;
+                    if kind == Kind::Xpub {
+                        while let Some(Ok(_)) = rt::future::or_idle(sock.recv()).await {}
+                    }
+                }
+            }
+            rt::count("probe_successor_judged");
+            peers.push(p);
+        }
         o2.borrow_mut().done = true;
         world::park().await;
         drop(sock);
@@ -280,7 +327,7 @@ fn hist_enum(ctx: &mut Ctx) {
     world::plain(ctx);
     ctx.out.extra_shape = ctx.idx;
     let cuts = if h.len() >= 2 { vec![h.len() / 2] } else { vec![] };
-    run_world(ctx, kind, vec![h], cuts);
+    run_world(ctx, kind, vec![h], cuts, false);
 }
 
 fn hist_random(ctx: &mut Ctx) {
@@ -290,7 +337,8 @@ fn hist_random(ctx: &mut Ctx) {
     let hs: Vec<Vec<Op>> = (0..nsub).map(|_| (0..ctx.plan(9)).map(|_| op_of(ctx.plan(NOPS), ctx.plan(4) as u8)).collect()).collect();
     let maxlen = hs.iter().map(|h| h.len()).max().unwrap_or(0);
     let cuts: Vec<usize> = (0..2).map(|_| ctx.plan(maxlen as u64 + 1) as usize).collect();
-    run_world(ctx, kind, hs, cuts);
+    let successor = ctx.plan(3) == 0;
+    run_world(ctx, kind, hs, cuts, successor);
 }
 
 
@@ -443,7 +491,7 @@ pub fn def() -> PropDef {
     PropDef {
         id: "C11",
         level: "exploration",
-        rule: "hist_enum: case index enumerates every history of length <= 4 over the 9 subscriber operations {subscribe/unsubscribe x topics '', 'a', 'ab', 'b', garbage} for PUB (indices 0..7381) and XPUB (7382..14763); at a mid-point and at the end the publisher sends all 7 probe first-frames {'', a, ab, abc, b, ba, c} and each subscriber's tap is compared with the multiset-prefix reference model (probe messages alternate between one frame, two frames whose second would complete a longer topic if frames were concatenated, and three frames with an empty one in between); hist_random: 1..3 subscribers, histories <= 8, drawn quiescent points, random transport and schedule; non-trivial = at least one probe matched and one did not; distinct = distinct (case, plan, schedule, transport)",
+        rule: "hist_enum: case index enumerates every history of length <= 4 over the 9 subscriber operations {subscribe/unsubscribe x topics '', 'a', 'ab', 'b', garbage} for PUB (indices 0..7381) and XPUB (7382..14763); at a mid-point and at the end the publisher sends all 7 probe first-frames {'', a, ab, abc, b, ba, c} and each subscriber's tap is compared with the multiset-prefix reference model (probe messages alternate between one frame, two frames whose second would complete a longer topic if frames were concatenated, and three frames with an empty one in between); hist_random: 1..3 subscribers, histories <= 8, drawn quiescent points, random transport and schedule; in one case in three subscriber 0 then leaves and a fresh connection takes its place, which must receive nothing before it subscribes and exactly its matches afterwards; non-trivial = at least one probe matched and one did not; distinct = distinct (case, plan, schedule, transport)",
         assumptions: &["matching is compared only at quiescent points (all subscription messages sent so far have been processed)", "subscribers accept every write (their pipes never answer Pending on writes), so nothing may be dropped"],
         strata: vec![
             Stratum { name: "hist_enum", quick: 2 * NHIST4, thorough: 2 * NHIST4, exhaustive: (true, true), run: hist_enum, what: "all 7382 histories <= 4 for PUB and for XPUB, one subscriber" },
